@@ -805,6 +805,8 @@ class Engine:
                 e = e.func
             if isinstance(e, ast.Name):
                 name = e.id
+            elif isinstance(e, ast.Attribute):
+                name = ast.unparse(e)
         return [('raise', st, name)]
 
     def st_Delete(self, s, st):
@@ -875,8 +877,10 @@ class Engine:
                     names = ['*']
                 elif isinstance(h.type, ast.Name):
                     names = [h.type.id]
+                elif isinstance(h.type, ast.Attribute):
+                    names = [ast.unparse(h.type)]
                 elif isinstance(h.type, ast.Tuple):
-                    names = [e.id for e in h.type.elts]
+                    names = [ast.unparse(e) for e in h.type.elts]
                 alias = {'IOError': 'OSError', 'EnvironmentError': 'OSError'}
                 names = [alias.get(x, x) for x in names]
                 if '*' in names or alias.get(payload, payload) in names or 'Exception' in names:
@@ -1287,6 +1291,8 @@ class Engine:
             return v
         if e.id in ('True', 'False', 'None'):
             return self.const({'True': True, 'False': False, 'None': None}[e.id])
+        if e.id == '__file__':
+            return ZV(TStr, z3.Const('module_file_path', T.Str))
         imp = self.cur.imports.get(e.id)
         if imp is not None:
             if imp[0] == 'module':
@@ -1457,6 +1463,8 @@ class Engine:
 
     def getitem(self, c, k, st, node, safe=True):
         c = self.unwrap(c, st, node)
+        if isinstance(c, PObj) and (c.cls + '.__getitem__') in self.builtins:
+            return self.builtins[c.cls + '.__getitem__'](self, node, st, c, k)
         if isinstance(c, (PTuple, PList)):
             if isinstance(k, ZV) and k.pyval is not None:
                 n = k.pyval
